@@ -587,7 +587,14 @@ inline void normalize(const Sch& s, Val& v) {
       for (auto& e : es) { v.kids.push_back(e.second.first); v.kids.push_back(e.second.second); }
       break;
     }
-    case K::Opt: if (v.u && !v.kids.empty()) normalize(s.kids[0], v.kids[0]); break;
+    case K::Opt:
+      if (v.u && !v.kids.empty()) {
+        normalize(s.kids[0], v.kids[0]);
+        // Optional<Optional<U>>: "engaged, holding an empty optional" and "empty" share the encoding NIL; the format cannot
+        // tell them apart and a reader yields the empty outer optional
+        if (s.kids[0].k == K::Opt && !v.kids[0].u) v = Val();
+      }
+      break;
     case K::Res: if (v.u && !v.kids.empty()) normalize(s.kids[1], v.kids[0]); break;
     case K::Var: { int64_t i = (int64_t)v.u; if (i >= 0 && (size_t)i < s.kids.size() && !v.kids.empty()) normalize(s.kids[i], v.kids[0]); break; }
     case K::Tab:
